@@ -820,7 +820,9 @@ Section Top.
                   end = match lam_name st id with Some n => [(n, this)] | None => [] end).
     { destruct (lam_name st id) as [n0|] eqn:En; [|reflexivity].
       rewrite lookup_frame_rec_get, (Hself n0 eq_refl). reflexivity. }
-    rewrite Hs1. cbn [lookup_frame].
+    rewrite Hs1.
+    (* F9 repaired: `inputs` is not captured (Hinp), so the caller's `inputs` is copied on both sides *)
+    rewrite (lookup_frame_rec_get sv "inputs"), Hinp. cbn [lookup_frame].
     set (acc := (match lookup fr "inputs" with Some i => [("inputs"%string, i)] | None => [] end ++
                  match lam_name st id with Some n => [(n, this)] | None => [] end)).
     set (acc' := (match lookup fr' "inputs" with Some i => [("inputs"%string, i)] | None => [] end ++
